@@ -20,7 +20,7 @@
 (* Traces that page 2 or 5 in at 0xC000 (aliasing) carry sem = 0 and are    *)
 (* judged for pair agreement, ranges, ROM immutability and the latch only.  *)
 (***************************************************************************)
-EXTENDS Z80, Json, IOUtils, FiniteSets
+EXTENDS Z80Bus, Json, IOUtils, FiniteSets
 
 Traces == JsonDeserialize(IOEnv.CASES)
 
@@ -118,7 +118,12 @@ Paging(o, v) ==
 
 Clause(t, o, rr, p, v) ==
   LET E(tA) == Boundary(t, rr, p, v, tA)
-      cands == { tA \in {o.r[rT], o.r[rT] - 13, o.r[rT] - 19} : tA >= rr[rT] }
+      \* contended pair: uncontended duration + ULA delay on the 128K layout; the bank at 0xC000 is contended when odd
+      \* (the mapping in force while the instruction runs); both readings of the OTIR/OTDR internal-cycle address
+      B(alt) == [r |-> rr, ov |-> Logical(p, v), inv |-> t.inv, frame |-> t.frame, ia |-> t.ia, tA |-> -1,
+                 m128 |-> 1, odd |-> BankAtC000(v) % 2, alt |-> alt]
+      base == Step(B(0)).r[rT]
+      cands == { base + ContendedDelay(B(0)), base + ContendedDelay(B(1)) }
   IN
   IF o.exc # "" THEN "exception"
   ELSE IF ~Range(o) THEN "range"
@@ -132,7 +137,7 @@ Clause(t, o, rr, p, v) ==
   ELSE IF BankAtC000(v) \in {2, 5} \/ BankAtC000(LatchAfter(v, o.io)) \in {2, 5} THEN "ok"
   ELSE IF t.tsem = 1 THEN Sem(o, E(-1), p)
   ELSE IF \E tA \in cands : Sem(o, E(tA), p) = "ok" THEN "ok"
-  ELSE Sem(o, E(o.r[rT]), p)
+  ELSE Sem(o, E(base + ContendedDelay(B(0))), p)
 
 \* observed physical writes -> overlays (the trace is followed on the OBSERVED state, so one bad step
 \* does not make every later step fail)
